@@ -33,6 +33,7 @@ import (
 	"net/http"
 	"net/http/httptest"
 	"net/netip"
+	"slices"
 	"strings"
 	"sync"
 	"sync/atomic"
@@ -92,6 +93,11 @@ type zzC03Vec struct {
 	Allowed    []zzC03Entry `json:"allowed"`
 	Disallowed []zzC03Entry `json:"disallowed"`
 	Hosts      []zzC03Pat   `json:"hosts"`
+	// Via is the entry point ("set": POST /control/access/set, "load": the
+	// server is created / reconfigured from a configuration); Given is the
+	// blocked-hosts list as passed to it, Hosts the effective one.
+	Via   string     `json:"via"`
+	Given []zzC03Pat `json:"given"`
 	Ex         []int        `json:"ex"`
 	Hv         []int        `json:"hv"`
 	Universe   string       `json:"universe"`
@@ -179,6 +185,12 @@ type zzC03Srv struct {
 	s   *Server
 	obs *zzC03Obs
 
+	// base is the configuration the server was created from (listen addresses
+	// with port 0), ups the recording upstream: both are needed to reconfigure.
+	base      ServerConfig
+	ups       upstream.Upstream
+	listeners bool
+
 	// ctlAddr is the source address of control queries: the filter observer
 	// does not count them (the other observers recognise them by name).
 	ctlAddr atomic.Pointer[netip.Addr]
@@ -224,7 +236,14 @@ func zzC03Cert(t testing.TB) (cert *tls.Certificate) {
 // (createTestServer / createTestTLS), with recording collaborators.  listeners
 // is false for the handler-level-only server of the exhaustive replay.
 func zzC03NewSrv(t testing.TB, listeners bool) (z *zzC03Srv) {
-	z = &zzC03Srv{obs: &zzC03Obs{}}
+	return zzC03NewSrvWith(t, listeners, nil)
+}
+
+// zzC03NewSrvWith is zzC03NewSrv with the access lists given in the server's
+// configuration, as they come from the configuration file (lists == nil: no
+// lists at all).
+func zzC03NewSrvWith(t testing.TB, listeners bool, lists *[3][]string) (z *zzC03Srv) {
+	z = &zzC03Srv{obs: &zzC03Obs{}, listeners: listeners}
 
 	filterConf := &filtering.Config{
 		BlockingMode:    filtering.BlockingModeDefault,
@@ -349,6 +368,11 @@ func zzC03NewSrv(t testing.TB, listeners bool) (z *zzC03Srv) {
 		}()
 	}
 
+	z.base, z.ups = conf, ups
+	if lists != nil {
+		conf.AllowedClients, conf.DisallowedClients, conf.BlockedHosts = lists[0], lists[1], lists[2]
+	}
+
 	err = z.s.Prepare(&conf)
 	if err != nil {
 		t.Fatalf("Prepare: %v", err)
@@ -362,8 +386,18 @@ func zzC03NewSrv(t testing.TB, listeners bool) (z *zzC03Srv) {
 	}
 
 	t.Cleanup(func() { _ = z.s.Stop() })
+	if msg := z.refreshAddrs(); msg != "" {
+		t.Fatalf("%s", msg)
+	}
 
-	if listeners {
+	return z
+}
+
+// refreshAddrs reads the addresses of the listeners (they change with every
+// reconfiguration, the ports being chosen by the kernel).
+func (z *zzC03Srv) refreshAddrs() (msg string) {
+	if z.listeners {
+		z.udp4, z.udpDual, z.tcp4, z.tcpDual, z.dnscryptUDP = nil, nil, nil, nil, nil
 		for _, a := range z.s.dnsProxy.Addrs(proxy.ProtoUDP) {
 			ua := a.(*net.UDPAddr)
 			if ua.IP.To4() != nil {
@@ -394,11 +428,47 @@ func zzC03NewSrv(t testing.TB, listeners bool) (z *zzC03Srv) {
 		}
 
 		if z.udp4 == nil || z.udpDual == nil || z.tcp4 == nil || z.tcpDual == nil || z.dnscryptUDP == nil {
-			t.Fatalf("listeners missing: %+v", z)
+			return fmt.Sprintf("listeners missing: %+v", z)
 		}
 	}
 
-	return z
+	return ""
+}
+
+// loadConfig reconfigures the live server from a configuration that carries
+// the access lists (Reconfigure -> Prepare), the way a changed configuration
+// is applied.  An empty hosts list is passed as such: the defaults apply.
+func (z *zzC03Srv) loadConfig(allowed, disallowed, hosts []string) (err error) {
+	conf := z.base
+	conf.AllowedClients, conf.DisallowedClients, conf.BlockedHosts = allowed, disallowed, hosts
+	err = z.s.Reconfigure(&conf)
+	if err != nil {
+		return err
+	}
+
+	z.s.conf.UpstreamConfig.Upstreams = []upstream.Upstream{z.ups}
+	if msg := z.refreshAddrs(); msg != "" {
+		return errors.Error(msg)
+	}
+
+	return nil
+}
+
+// reported returns what GET /control/access/list reports as current.
+func (z *zzC03Srv) reported() (cl [3][]string, err error) {
+	w := httptest.NewRecorder()
+	z.s.handleAccessList(w, httptest.NewRequest(http.MethodGet, "/control/access/list", nil))
+	j := accessListJSON{}
+	err = json.Unmarshal(w.Body.Bytes(), &j)
+	norm := func(x []string) (y []string) {
+		if x == nil {
+			return []string{}
+		}
+
+		return x
+	}
+
+	return [3][]string{norm(j.AllowedClients), norm(j.DisallowedClients), norm(j.BlockedHosts)}, err
 }
 
 // setAccess installs the lists through the POST /control/access/set handler.
@@ -691,7 +761,12 @@ func (c *zzC03Conc) lists(v *zzC03Vec) (allowed, disallowed, hosts []string) {
 		disallowed = append(disallowed, c.entry(e))
 	}
 
-	for _, p := range v.Hosts {
+	given := v.Given
+	if v.Via == "" {
+		given = v.Hosts
+	}
+
+	for _, p := range given {
 		h := c.pattern(p)
 		if c.rng.Intn(4) == 0 {
 			// DNS names are case-insensitive: a pattern may be written in any
@@ -1195,13 +1270,35 @@ func (z *zzC03Srv) rngBit() (ok bool) { return zzC03Bit.Add(1)%2 == 0 }
 
 var zzC03Qtypes = []uint16{dns.TypeA, dns.TypeAAAA, dns.TypeTXT, dns.TypeHTTPS, dns.TypeMX}
 
-// zzC03Install posts a history of configurations that ends with v: with a
-// seeded choice, v is preceded by the same lists respelled (ClientID entries
-// in the other letter case, patterns in another case; same order or shuffled)
-// and / or by v with its allow list emptied or, if v has none, filled.  What
-// must be in force afterwards is v alone, as posted last.  It returns v's
-// concrete lists and the status of the last post.
-func zzC03Install(z *zzC03Srv, c *zzC03Conc, v *zzC03Vec, rng *rand.Rand) (cl [3][]string, hist [][3][]string, code int, body string) {
+// zzC03Post is one installation of access lists, as given to the entry point.
+type zzC03Post struct {
+	Via        string   `json:"via"`
+	Allowed    []string `json:"allowed"`
+	Disallowed []string `json:"disallowed"`
+	Hosts      []string `json:"hosts"`
+}
+
+// post installs the lists through the entry point p.Via on the live server.
+func (z *zzC03Srv) post(p zzC03Post) (code int, body string) {
+	if p.Via == "load" {
+		if err := z.loadConfig(p.Allowed, p.Disallowed, p.Hosts); err != nil {
+			return http.StatusInternalServerError, err.Error()
+		}
+
+		return http.StatusOK, ""
+	}
+
+	return z.setAccess(p.Allowed, p.Disallowed, p.Hosts)
+}
+
+// zzC03Install installs v on the live server z as the last step of a seeded
+// history: v may be preceded by the same lists respelled (ClientID entries in
+// the other letter case, patterns in another case; same order or shuffled),
+// by v with its allow list emptied or, if v has none, filled, and -- rarely,
+// it takes 100 ms -- by a reconfiguration from a configuration file.  What must
+// be in force afterwards is v alone, as given last.  via is the entry point of
+// the last step.  It returns the lists as given last and the status.
+func zzC03Install(z *zzC03Srv, c *zzC03Conc, v *zzC03Vec, via string, rng *rand.Rand) (cl [3][]string, hist []zzC03Post, code int, body string) {
 	shuffle := func(x []string) {
 		rng.Shuffle(len(x), func(i, j int) { x[i], x[j] = x[j], x[i] })
 	}
@@ -1216,8 +1313,13 @@ func zzC03Install(z *zzC03Srv, c *zzC03Conc, v *zzC03Vec, rng *rand.Rand) (cl [3
 			al = []string{c.addr("v4", zzC03RandBits(rng, c.w)).String(), "anyone-" + fmt.Sprint(rng.Intn(9))}
 		}
 
-		_, _ = z.setAccess(al, dis, hosts)
-		hist = append(hist, [3][]string{al, dis, hosts})
+		p := zzC03Post{Via: "set", Allowed: al, Disallowed: dis, Hosts: hosts}
+		if rng.Intn(60) == 0 {
+			p.Via = "load"
+		}
+
+		_, _ = z.post(p)
+		hist = append(hist, p)
 	}
 
 	if kind == 1 || kind == 2 || kind == 4 {
@@ -1230,15 +1332,44 @@ func zzC03Install(z *zzC03Srv, c *zzC03Conc, v *zzC03Vec, rng *rand.Rand) (cl [3
 			shuffle(hosts)
 		}
 
-		_, _ = z.setAccess(al, dis, hosts)
-		hist = append(hist, [3][]string{al, dis, hosts})
+		p := zzC03Post{Via: "set", Allowed: al, Disallowed: dis, Hosts: hosts}
+		_, _ = z.post(p)
+		hist = append(hist, p)
 	}
 
 	al, dis, hosts := c.lists(v)
 	cl = [3][]string{al, dis, hosts}
-	code, body = z.setAccess(al, dis, hosts)
+	code, body = z.post(zzC03Post{Via: via, Allowed: al, Disallowed: dis, Hosts: hosts})
 
 	return cl, hist, code, body
+}
+
+// zzC03CheckReported compares what GET /control/access/list reports with the
+// lists given last: the same strings, except that a configuration loaded with
+// an empty blocked-hosts list reports the effective (default) one, which is
+// v.Hosts.
+func zzC03CheckReported(z *zzC03Srv, c *zzC03Conc, v *zzC03Vec, via string, cl [3][]string, rec *zzC03Rec) {
+	want := cl
+	if via == "load" && len(cl[2]) == 0 {
+		want[2] = []string{}
+		for _, p := range v.Hosts {
+			want[2] = append(want[2], c.pattern(p))
+		}
+	}
+
+	got, err := z.reported()
+	same := err == nil
+	for i := 0; i < 3; i++ {
+		want[i], got[i] = append([]string{}, want[i]...), append([]string{}, got[i]...)
+		slices.Sort(want[i])
+		slices.Sort(got[i])
+		same = same && slices.Equal(want[i], got[i])
+	}
+
+	if !same {
+		rec.bad("reported", v, cl, &zzC03AReq{Form: "plain", Proto: "-"}, &zzC03Req{Level: "reported"},
+			[]string{fmt.Sprint(want)}, fmt.Sprint(got), nil)
+	}
 }
 var zzC03Spells = []string{"plain", "mixed", "upper", "nodot"}
 
@@ -1295,7 +1426,8 @@ type zzC03Rec struct {
 	// hist are the posts that preceded the configuration under replay on this
 	// server, asked the requests made so far under it, by canonical name: both
 	// go into a disagreement's record so that it can be replayed as a history.
-	hist  [][3][]string
+	hist  []zzC03Post
+	via   string
 	asked map[string][]zzC03Req
 }
 
@@ -1336,7 +1468,7 @@ func (rec *zzC03Rec) bad(level string, v *zzC03Vec, c [3][]string, ar *zzC03AReq
 	row := map[string]any{
 		"kind": "bad", "level": level, "sig": sig, "universe": v.Universe,
 		"cfg":  map[string]any{"allowed": v.Allowed, "disallowed": v.Disallowed, "hosts": v.Hosts},
-		"conc": map[string]any{"allowed": c[0], "disallowed": c[1], "hosts": c[2]},
+		"conc": map[string]any{"via": rec.via, "allowed": c[0], "disallowed": c[1], "hosts": c[2]},
 		"areq": ar, "req": r, "want": want, "got": got,
 		"history": rec.hist, "before": rec.asked[zzC03CanonName(r.Name)],
 	}
@@ -1351,15 +1483,41 @@ func zzC03QtypeName(qt uint16) (s string) { return dns.TypeToString[qt] }
 
 // zzC03Sweep replays one configuration at handler level on the server z.
 // full selects every transport for every decision instead of a seeded one.
-func zzC03Sweep(z *zzC03Srv, u, v *zzC03Vec, rng *rand.Rand, full bool, rec *zzC03Rec) {
+func zzC03Sweep(t testing.TB, z *zzC03Srv, u, v *zzC03Vec, rng *rand.Rand, full bool, rec *zzC03Rec) {
 	c := zzC03NewConc(rng, len(u.Addrs[0].Bits), false)
-	cl, hist, code, body := zzC03Install(z, c, v, rng)
-	rec.hist, rec.asked = hist, map[string][]zzC03Req{}
+
+	// Entry point.  By Access.tla, a configuration loaded with a non-empty
+	// blocked-hosts list is the configuration SetLists would install, so a
+	// "set" vector may as well be loaded now and then.
+	via := v.Via
+	if via == "set" && len(v.Given) > 0 && rng.Intn(40) == 0 {
+		via = "load"
+	}
+
+	var cl [3][]string
+	var hist []zzC03Post
+	code, body := http.StatusOK, ""
+	if via == "load" && rng.Intn(4) > 0 {
+		// A server created from a configuration that carries the lists.
+		al, dis, hosts := c.lists(v)
+		cl = [3][]string{al, dis, hosts}
+		z = zzC03NewSrvWith(t, false, &cl)
+		defer func() { _ = z.s.Stop() }()
+	} else {
+		// The live server: a history that ends with v (a load being a
+		// reconfiguration).
+		cl, hist, code, body = zzC03Install(z, c, v, via, rng)
+	}
+
+	rec.hist, rec.via, rec.asked = hist, via, map[string][]zzC03Req{}
+	rec.counts["via:"+via]++
 	if code != http.StatusOK {
 		rec.bad("set", v, cl, &zzC03AReq{Form: "plain"}, &zzC03Req{}, []string{"200"}, fmt.Sprintf("%d", code), map[string]any{"body": body})
 
 		return
 	}
+
+	zzC03CheckReported(z, c, v, via, cl, rec)
 
 	nid, nq := len(u.IDs), len(u.Qtypes)
 
@@ -1607,13 +1765,21 @@ func zzC03Probe(z *zzC03Srv, v *zzC03Vec, cl [3][]string, c *zzC03Conc, rng *ran
 // transports.  The IPv4 universe is placed under 127.0.7.0/24.
 func zzC03Transports(z *zzC03Srv, u, v *zzC03Vec, rng *rand.Rand, rec *zzC03Rec) {
 	c := zzC03NewConc(rng, len(u.Addrs[0].Bits), true)
-	cl, hist, code, body := zzC03Install(z, c, v, rng)
-	rec.hist, rec.asked = hist, map[string][]zzC03Req{}
+	via := v.Via
+	if via == "set" && len(v.Given) > 0 && rng.Intn(10) == 0 {
+		via = "load"
+	}
+
+	cl, hist, code, body := zzC03Install(z, c, v, via, rng)
+	rec.hist, rec.via, rec.asked = hist, via, map[string][]zzC03Req{}
+	rec.counts["via:"+via]++
 	if code != http.StatusOK {
 		rec.bad("set", v, cl, &zzC03AReq{Form: "plain"}, &zzC03Req{}, []string{"200"}, fmt.Sprintf("%d", code), map[string]any{"body": body})
 
 		return
 	}
+
+	zzC03CheckReported(z, c, v, via, cl, rec)
 
 	nid, nq := len(u.IDs), len(u.Qtypes)
 
@@ -1825,7 +1991,7 @@ func TestZZVerifC03Replay(t *testing.T) {
 
 			for i := k; i < len(cfgs); i += workers {
 				rng := rand.New(rand.NewSource(seed*1000003 + int64(i)))
-				zzC03Sweep(z, u, cfgs[i], rng, full, recs[k])
+				zzC03Sweep(t, z, u, cfgs[i], rng, full, recs[k])
 			}
 		}(k)
 	}
@@ -1968,6 +2134,77 @@ func zzC03RandLists(rng *rand.Rand, w int) (v *zzC03Vec) {
 	}
 
 	return v
+}
+
+// zzC03ParsePattern abstracts a blocked-hosts rule string of one of the
+// shapes of the spec.
+func zzC03ParsePattern(str string) (p zzC03Pat) {
+	str = strings.ToLower(str)
+	if i := strings.Index(str, "$dnstype="); i >= 0 {
+		p.Qt = strings.ToUpper(str[i+len("$dnstype="):])
+		str = str[:i]
+	}
+
+	switch {
+	case str == "||*^":
+		p.K, p.N = "all", []string{}
+
+		return p
+	case strings.HasPrefix(str, "||") && strings.HasSuffix(str, "^"):
+		p.K, str = "domain", str[2:len(str)-1]
+	case strings.HasPrefix(str, "*."):
+		p.K, str = "wild", str[2:]
+	default:
+		p.K = "exact"
+	}
+
+	p.N = strings.Split(str, ".")
+
+	return p
+}
+
+// zzC03AbsReported abstracts the lists reported by GET /control/access/list:
+// a string that was given in the last installation is the abstract entry it
+// was rendered from; any other client string is an unknown entry, any other
+// host string is parsed.
+func zzC03AbsReported(v *zzC03Vec, given, reported [3][]string) (abs map[string]any) {
+	entries := func(src []zzC03Entry, strs, rep []string) (out []zzC03Entry) {
+		out = []zzC03Entry{}
+		back := map[string]zzC03Entry{}
+		for i, e := range src {
+			back[strs[i]] = e
+		}
+
+		for _, r := range rep {
+			if e, ok := back[r]; ok {
+				out = append(out, e)
+			} else {
+				out = append(out, zzC03Entry{K: "unknown", Bits: []int{}, ID: r, Sp: "lower"})
+			}
+		}
+
+		return out
+	}
+
+	hosts := []zzC03Pat{}
+	back := map[string]zzC03Pat{}
+	for i, p := range v.Hosts {
+		back[given[2][i]] = p
+	}
+
+	for _, r := range reported[2] {
+		if p, ok := back[r]; ok {
+			hosts = append(hosts, p)
+		} else {
+			hosts = append(hosts, zzC03ParsePattern(r))
+		}
+	}
+
+	return map[string]any{
+		"allowed":    entries(v.Allowed, given[0], reported[0]),
+		"disallowed": entries(v.Disallowed, given[1], reported[1]),
+		"hosts":      hosts,
+	}
 }
 
 // zzC03Derive returns a configuration that follows prev in a history of
@@ -2131,18 +2368,39 @@ func TestZZVerifC03Trace(t *testing.T) {
 			v, c = zzC03Derive(rng, prevV[sock], width), prevC[sock]
 		}
 
-		prevV[sock], prevC[sock] = v, c
-		allowed, disallowed, hosts := c.lists(v)
-		code, body := z.setAccess(allowed, disallowed, hosts)
-		if code != http.StatusOK {
-			t.Fatalf("set %d rejected: %d %s (%v %v %v)", si, code, body, allowed, disallowed, hosts)
+		// Entry point: mostly the API, now and then a reconfiguration of the
+		// live server from a configuration carrying the lists -- half of
+		// these without blocked hosts, i.e. with the defaults.
+		via := "set"
+		if rng.Intn(6) == 0 {
+			via = "load"
+			if rng.Intn(2) == 0 {
+				v.Hosts = []zzC03Pat{}
+			}
 		}
 
+		prevV[sock], prevC[sock] = v, c
+		allowed, disallowed, hosts := c.lists(v)
+		code, body := z.post(zzC03Post{Via: via, Allowed: allowed, Disallowed: disallowed, Hosts: hosts})
+		if code != http.StatusOK {
+			t.Fatalf("%s %d rejected: %d %s (%v %v %v)", via, si, code, body, allowed, disallowed, hosts)
+		}
+
+		repd, err := z.reported()
+		if err != nil {
+			t.Fatalf("access list: %v", err)
+		}
+
+		absRep := zzC03AbsReported(v, [3][]string{allowed, disallowed, hosts}, repd)
 		w.put(map[string]any{
-			"k": "set", "lvl": map[bool]string{false: "handler", true: "transport"}[sock],
+			"k": via, "lvl": map[bool]string{false: "handler", true: "transport"}[sock],
 			"allowed": v.Allowed, "disallowed": v.Disallowed, "hosts": v.Hosts,
-			"conc": map[string]any{"allowed": allowed, "disallowed": disallowed, "hosts": hosts},
+			"reported": absRep,
+			"conc":     map[string]any{"via": via, "allowed": allowed, "disallowed": disallowed, "hosts": hosts},
 		})
+
+		// Requests are drawn around what is in force now.
+		v = &zzC03Vec{Allowed: v.Allowed, Disallowed: v.Disallowed, Hosts: absRep["hosts"].([]zzC03Pat)}
 
 		n := perSet
 		protos := zzC03ProtoNames
@@ -2233,16 +2491,12 @@ func TestZZVerifC03Trace(t *testing.T) {
 
 // zzC03One is a stored concrete step: lists and one request.
 type zzC03One struct {
-	Conc struct {
-		Allowed    []string `json:"allowed"`
-		Disallowed []string `json:"disallowed"`
-		Hosts      []string `json:"hosts"`
-	} `json:"conc"`
+	Conc zzC03Post `json:"conc"`
 	Req zzC03Req `json:"req"`
 
 	// History are earlier posts on the same server, Before earlier requests
 	// under the last configuration (run at handler level).
-	History [][3][]string `json:"history"`
+	History []zzC03Post `json:"history"`
 	Before  []zzC03Req    `json:"before"`
 }
 
@@ -2280,10 +2534,10 @@ func TestZZVerifC03One(t *testing.T) {
 		}
 
 		for _, h := range one.History {
-			_, _ = z.setAccess(h[0], h[1], h[2])
+			_, _ = z.post(h)
 		}
 
-		code, body := z.setAccess(one.Conc.Allowed, one.Conc.Disallowed, one.Conc.Hosts)
+		code, body := z.post(one.Conc)
 		if code == http.StatusOK {
 			for i := range one.Before {
 				b := one.Before[i]
@@ -2301,6 +2555,13 @@ func TestZZVerifC03One(t *testing.T) {
 		}
 
 		switch r.Level {
+		case "reported":
+			got, _ := z.reported()
+			for i := range got {
+				slices.Sort(got[i])
+			}
+
+			row["out"] = fmt.Sprint(got)
 		case "decision":
 			bl, _ := z.s.IsBlockedClient(netip.MustParseAddr(r.Addr), r.ID)
 			row["out"] = fmt.Sprint(bl)
